@@ -1,5 +1,6 @@
-// Package rec replays edited Groth16 triples (specs/Groth16Protocol.tla behaviours, produced by the BLS12-377 curve
-// package) on the in-circuit verifier of std/recursion/groth16 over BW6-761 (C17).
+// Package rec replays edited (proof, verifying key, public witness) triples - behaviours of specs/Groth16Protocol.tla and
+// specs/PlonkProtocol.tla produced by the BLS12-377 curve package - on the in-circuit verifiers of std/recursion/groth16 and
+// std/recursion/plonk over BW6-761, in the configurations enumerated by specs/Recursion.tla (C17).
 package rec
 
 import (
@@ -8,11 +9,13 @@ import (
 
 	"github.com/consensys/gnark-crypto/ecc"
 	"github.com/consensys/gnark/backend/groth16"
+	"github.com/consensys/gnark/backend/plonk"
 	"github.com/consensys/gnark/backend/witness"
 	"github.com/consensys/gnark/constraint"
 	"github.com/consensys/gnark/frontend"
 	"github.com/consensys/gnark/std/algebra/native/sw_bls12377"
 	stdgroth16 "github.com/consensys/gnark/std/recursion/groth16"
+	stdplonk "github.com/consensys/gnark/std/recursion/plonk"
 	"github.com/consensys/gnark/test"
 
 	"verifharness/common"
@@ -26,96 +29,473 @@ type (
 	fr = sw_bls12377.ScalarField
 )
 
-type Outer struct {
+// RecBeh is an inner behaviour together with a configuration of specs/Recursion.tla.
+type RecBeh struct {
+	c377.Behaviour
+	Backend string `json:"backend"` // groth16 | plonk
+	Mode    string `json:"mode"`    // witness | fixed | switch | same
+	Pos     int    `json:"pos"`     // switch: position of the behaviour's key among the candidate keys
+	Idx     int    `json:"idx"`     // switch: selector given to the circuit
+	NKeys   int    `json:"nkeys"`   // switch: number of candidate keys (1 or 2)
+	Arith   string `json:"arith"`   // complete | incomplete
+}
+
+// ---------------------------------------------------------------- Groth16 outer circuits
+
+type g16Outer struct {
 	Proof        stdgroth16.Proof[g1, g2]
 	VerifyingKey stdgroth16.VerifyingKey[g1, g2, gt]
 	InnerWitness stdgroth16.Witness[fr]
-	Fixed        bool `gnark:"-"` // the verifying key is a constant of the circuit
+	complete     bool `gnark:"-"`
 }
 
-func (c *Outer) Define(api frontend.API) error {
+func g16Opts(complete bool) []stdgroth16.VerifierOption {
+	// the native verifier checks subgroup membership and handles the point at infinity: matching options
+	if complete {
+		return []stdgroth16.VerifierOption{stdgroth16.WithCompleteArithmetic(), stdgroth16.WithSubgroupCheck()}
+	}
+	return []stdgroth16.VerifierOption{stdgroth16.WithSubgroupCheck()}
+}
+
+func (c *g16Outer) Define(api frontend.API) error {
 	v, err := stdgroth16.NewVerifier[fr, g1, g2, gt](api)
 	if err != nil {
 		return err
 	}
-	// the native verifier checks subgroup membership and handles the point at infinity: matching options
-	return v.AssertProof(c.VerifyingKey, c.Proof, c.InnerWitness, stdgroth16.WithCompleteArithmetic(), stdgroth16.WithSubgroupCheck())
+	return v.AssertProof(c.VerifyingKey, c.Proof, c.InnerWitness, g16Opts(c.complete)...)
 }
+
+// the verifying key is a constant of the circuit
+type g16OuterFixed struct {
+	Proof        stdgroth16.Proof[g1, g2]
+	vk           stdgroth16.VerifyingKey[g1, g2, gt] `gnark:"-"`
+	InnerWitness stdgroth16.Witness[fr]
+	complete     bool `gnark:"-"`
+}
+
+func (c *g16OuterFixed) Define(api frontend.API) error {
+	v, err := stdgroth16.NewVerifier[fr, g1, g2, gt](api)
+	if err != nil {
+		return err
+	}
+	return v.AssertProof(c.vk, c.Proof, c.InnerWitness, g16Opts(c.complete)...)
+}
+
+// the verifying key is selected among candidates by a circuit variable
+type g16OuterSwitch struct {
+	Proof        stdgroth16.Proof[g1, g2]
+	Keys         []stdgroth16.VerifyingKey[g1, g2, gt]
+	Idx          frontend.Variable
+	InnerWitness stdgroth16.Witness[fr]
+	complete     bool `gnark:"-"`
+}
+
+func (c *g16OuterSwitch) Define(api frontend.API) error {
+	v, err := stdgroth16.NewVerifier[fr, g1, g2, gt](api)
+	if err != nil {
+		return err
+	}
+	vk, err := v.SwitchVerificationKey(c.Idx, c.Keys)
+	if err != nil {
+		return err
+	}
+	return v.AssertProof(vk, c.Proof, c.InnerWitness, g16Opts(c.complete)...)
+}
+
+// ---------------------------------------------------------------- PLONK outer circuits
+
+type plOuter struct {
+	Proof        stdplonk.Proof[fr, g1, g2]
+	VerifyingKey stdplonk.VerifyingKey[fr, g1, g2]
+	InnerWitness stdplonk.Witness[fr]
+	complete     bool `gnark:"-"`
+}
+
+func plOpts(complete bool) []stdplonk.VerifierOption {
+	if complete {
+		return []stdplonk.VerifierOption{stdplonk.WithCompleteArithmetic()}
+	}
+	return nil
+}
+
+func (c *plOuter) Define(api frontend.API) error {
+	v, err := stdplonk.NewVerifier[fr, g1, g2, gt](api)
+	if err != nil {
+		return err
+	}
+	return v.AssertProof(c.VerifyingKey, c.Proof, c.InnerWitness, plOpts(c.complete)...)
+}
+
+type plOuterFixed struct {
+	Proof        stdplonk.Proof[fr, g1, g2]
+	vk           stdplonk.VerifyingKey[fr, g1, g2] `gnark:"-"`
+	InnerWitness stdplonk.Witness[fr]
+	complete     bool `gnark:"-"`
+}
+
+func (c *plOuterFixed) Define(api frontend.API) error {
+	v, err := stdplonk.NewVerifier[fr, g1, g2, gt](api)
+	if err != nil {
+		return err
+	}
+	return v.AssertProof(c.vk, c.Proof, c.InnerWitness, plOpts(c.complete)...)
+}
+
+type plOuterSwitch struct {
+	Proof        stdplonk.Proof[fr, g1, g2]
+	Base         stdplonk.BaseVerifyingKey[fr, g1, g2]
+	Keys         []stdplonk.CircuitVerifyingKey[fr, g1]
+	Idx          frontend.Variable
+	InnerWitness stdplonk.Witness[fr]
+	complete     bool `gnark:"-"`
+}
+
+func (c *plOuterSwitch) Define(api frontend.API) error {
+	v, err := stdplonk.NewVerifier[fr, g1, g2, gt](api)
+	if err != nil {
+		return err
+	}
+	return v.AssertDifferentProofs(c.Base, c.Keys, []frontend.Variable{c.Idx},
+		[]stdplonk.Proof[fr, g1, g2]{c.Proof}, []stdplonk.Witness[fr]{c.InnerWitness}, plOpts(c.complete)...)
+}
+
+// two proofs against one key, batched (AssertSameProofs): the edited triple and a genuine one
+type plOuterSame struct {
+	Proofs       []stdplonk.Proof[fr, g1, g2]
+	VerifyingKey stdplonk.VerifyingKey[fr, g1, g2]
+	Witnesses    []stdplonk.Witness[fr]
+	complete     bool `gnark:"-"`
+}
+
+func (c *plOuterSame) Define(api frontend.API) error {
+	v, err := stdplonk.NewVerifier[fr, g1, g2, gt](api)
+	if err != nil {
+		return err
+	}
+	return v.AssertSameProofs(c.VerifyingKey, c.Proofs, c.Witnesses, plOpts(c.complete)...)
+}
+
+// ----------------------------------------------------------------
 
 type Res struct {
 	ID       int    `json:"id"`
-	Native   string `json:"native"`   // verdict of the native verifier on the edited triple
-	Circuit  string `json:"circuit"`  // accept | reject | unassignable | skip
+	Native   string `json:"native"`  // verdict of the native verifier on the triple the circuit is asked to verify
+	Circuit  string `json:"circuit"` // accept | reject | unassignable | unsupported | skip
 	Err      string `json:"err,omitempty"`
 	NativeSt string `json:"native_stage,omitempty"`
 }
 
 type seen struct {
 	ccs    constraint.ConstraintSystem
-	proof  groth16.Proof
-	vk     groth16.VerifyingKey
+	g16p   groth16.Proof
+	g16vk  groth16.VerifyingKey
+	plp    plonk.Proof
+	plvk   plonk.VerifyingKey
 	pw     witness.Witness
 	native string
-	ok     bool
+}
+
+var outerField = ecc.BW6_761.ScalarField()
+
+func verdictOf(err error) string {
+	if err == nil {
+		return "accept"
+	}
+	return "reject"
 }
 
 // Replay runs every behaviour natively (curve package) and in-circuit.
 func Replay(args common.Args, out *common.Out) error {
-	behs, err := common.ReadNDJSON[c377.Behaviour](args.Get("in", ""))
+	behs, err := common.ReadNDJSON[RecBeh](args.Get("in", ""))
 	if err != nil {
 		return err
 	}
+	inner := ecc.BLS12_377.ScalarField()
+	// native options matching the in-circuit verifiers (hash to field of commitments, Fiat-Shamir and KZG folding hashes)
+	c377.G16ProverOpts = append(c377.G16ProverOpts[:0:0], stdgroth16.GetNativeProverOptions(outerField, inner))
+	c377.G16VerifierOpts = append(c377.G16VerifierOpts[:0:0], stdgroth16.GetNativeVerifierOptions(outerField, inner))
+	c377.PlonkProverOpts = append(c377.PlonkProverOpts[:0:0], stdplonk.GetNativeProverOptions(outerField, inner))
+	c377.PlonkVerifierOpts = append(c377.PlonkVerifierOpts[:0:0], stdplonk.GetNativeVerifierOptions(outerField, inner))
 	var mu sync.Mutex
 	obs := map[int]*seen{}
 	c377.G16Observer = func(b *c377.Behaviour, ccs constraint.ConstraintSystem, p groth16.Proof, vk groth16.VerifyingKey, pw witness.Witness, verdict string) {
 		mu.Lock()
-		obs[b.ID] = &seen{ccs: ccs, proof: p, vk: vk, pw: pw, native: verdict, ok: true}
+		obs[b.ID] = &seen{ccs: ccs, g16p: p, g16vk: vk, pw: pw, native: verdict}
 		mu.Unlock()
 	}
-	defer func() { c377.G16Observer = nil }()
-	outer := ecc.BW6_761.ScalarField()
+	c377.PlonkObserver = func(b *c377.Behaviour, ccs constraint.ConstraintSystem, p plonk.Proof, vk plonk.VerifyingKey, pw witness.Witness, verdict string) {
+		mu.Lock()
+		obs[b.ID] = &seen{ccs: ccs, plp: p, plvk: vk, pw: pw, native: verdict}
+		mu.Unlock()
+	}
+	defer func() { c377.G16Observer, c377.PlonkObserver = nil, nil }()
+	lookupSeen = func(id int) *seen {
+		mu.Lock()
+		defer mu.Unlock()
+		return obs[id]
+	}
 	common.ParallelFor(len(behs), args.Int("par", 8), func(i int) {
 		b := &behs[i]
-		r := c377.G16Run(b)
+		var r c377.Result
+		if b.Backend == "plonk" {
+			r = c377.PlonkRun(&b.Behaviour)
+		} else {
+			r = c377.G16Run(&b.Behaviour)
+		}
 		res := Res{ID: b.ID, Native: r.Verdict, NativeSt: r.Stage}
 		defer func() { out.Emit(res) }()
 		mu.Lock()
 		s := obs[b.ID]
 		mu.Unlock()
-		if s == nil || !s.ok {
+		if s == nil {
 			res.Circuit = "skip" // the edit never reached the verifier (encoding round trips, verifier options, fresh proofs)
 			return
 		}
 		res.Native = s.native
-		var assign Outer
-		var e1, e2, e3 error
-		pan, msg := common.Safely(func() {
-			assign.Proof, e1 = stdgroth16.ValueOfProof[g1, g2](s.proof)
-			assign.VerifyingKey, e2 = stdgroth16.ValueOfVerifyingKey[g1, g2, gt](s.vk)
-			assign.InnerWitness, e3 = stdgroth16.ValueOfWitness[fr](s.pw)
-		})
-		if pan || e1 != nil || e2 != nil || e3 != nil {
-			res.Circuit, res.Err = "unassignable", fmt.Sprint(msg, e1, e2, e3)
-			return
-		}
-		circuit := &Outer{
-			Proof:        stdgroth16.PlaceholderProof[g1, g2](s.ccs),
-			VerifyingKey: stdgroth16.PlaceholderVerifyingKey[g1, g2, gt](s.ccs),
-			InnerWitness: stdgroth16.PlaceholderWitness[fr](s.ccs),
-		}
-		var terr error
-		pan, msg = common.Safely(func() { terr = test.IsSolved(circuit, &assign, outer) })
-		switch {
-		case pan:
-			res.Circuit, res.Err = "reject", "panic: "+msg
-		case terr != nil:
-			res.Circuit, res.Err = "reject", firstLine(terr.Error())
-		default:
-			res.Circuit = "accept"
+		if b.Backend == "plonk" {
+			plonkCircuit(b, s, &res)
+		} else {
+			g16Circuit(b, s, &res)
 		}
 	})
 	return nil
 }
+
+func solve(circuit, assign frontend.Circuit, res *Res) {
+	var terr error
+	pan, msg := common.Safely(func() { terr = test.IsSolved(circuit, assign, outerField) })
+	switch {
+	case pan:
+		res.Circuit, res.Err = "reject", "panic: "+msg
+	case terr != nil:
+		res.Circuit, res.Err = "reject", firstLine(terr.Error())
+	default:
+		res.Circuit = "accept"
+	}
+}
+
+func g16Circuit(b *RecBeh, s *seen, res *Res) {
+	complete := b.Arith != "incomplete"
+	if n := len(s.ccs.GetCommitments().(constraint.Groth16Commitments)); n > 1 {
+		res.Circuit, res.Err = "unsupported", "more than one commitment"
+		return
+	}
+	if !complete && c377.G16KeyHasInfinity(s.g16vk) {
+		res.Circuit, res.Err = "skip", "a public-input base of the key is the point at infinity: outside the domain of incomplete arithmetic"
+		return
+	}
+	var proof stdgroth16.Proof[g1, g2]
+	var wit stdgroth16.Witness[fr]
+	var e1, e3 error
+	pan, msg := common.Safely(func() {
+		proof, e1 = stdgroth16.ValueOfProof[g1, g2](s.g16p)
+		wit, e3 = stdgroth16.ValueOfWitness[fr](s.pw)
+	})
+	if pan || e1 != nil || e3 != nil {
+		res.Circuit, res.Err = "unassignable", fmt.Sprint(msg, e1, e3)
+		return
+	}
+	switch b.Mode {
+	case "", "witness":
+		var vk stdgroth16.VerifyingKey[g1, g2, gt]
+		var e2 error
+		if pan, msg = common.Safely(func() { vk, e2 = stdgroth16.ValueOfVerifyingKey[g1, g2, gt](s.g16vk) }); pan || e2 != nil {
+			res.Circuit, res.Err = "unassignable", fmt.Sprint(msg, e2)
+			return
+		}
+		circuit := &g16Outer{
+			Proof:        stdgroth16.PlaceholderProof[g1, g2](s.ccs),
+			VerifyingKey: stdgroth16.PlaceholderVerifyingKey[g1, g2, gt](s.ccs),
+			InnerWitness: stdgroth16.PlaceholderWitness[fr](s.ccs),
+			complete:     complete,
+		}
+		solve(circuit, &g16Outer{Proof: proof, VerifyingKey: vk, InnerWitness: wit}, res)
+	case "fixed":
+		var vk stdgroth16.VerifyingKey[g1, g2, gt]
+		var e2 error
+		if pan, msg = common.Safely(func() { vk, e2 = stdgroth16.ValueOfVerifyingKeyFixed[g1, g2, gt](s.g16vk) }); pan || e2 != nil {
+			res.Circuit, res.Err = "unassignable", fmt.Sprint(msg, e2)
+			return
+		}
+		circuit := &g16OuterFixed{
+			Proof:        stdgroth16.PlaceholderProof[g1, g2](s.ccs),
+			vk:           vk,
+			InnerWitness: stdgroth16.PlaceholderWitness[fr](s.ccs),
+			complete:     complete,
+		}
+		solve(circuit, &g16OuterFixed{Proof: proof, InnerWitness: wit}, res)
+	case "switch":
+		keys := []groth16.VerifyingKey{s.g16vk}
+		if b.NKeys == 2 {
+			alt := c377.G16Alt(b.Shape)
+			if alt == nil || alt == s.g16vk {
+				res.Circuit = "skip"
+				return
+			}
+			keys = []groth16.VerifyingKey{alt, alt}
+			keys[b.Pos] = s.g16vk
+		}
+		if b.Idx < len(keys) {
+			// the oracle: the native verifier on the key the selector designates
+			var verr error
+			if pan, msg = common.Safely(func() { verr = groth16.Verify(s.g16p, keys[b.Idx], s.pw, c377.G16VerifierOpts...) }); pan {
+				res.Native, res.NativeSt = "panic", msg
+			} else {
+				res.Native = verdictOf(verr)
+			}
+		} else {
+			res.Native = "reject" // a selector outside the candidate keys designates no key
+		}
+		ph := make([]stdgroth16.VerifyingKey[g1, g2, gt], len(keys))
+		vals := make([]stdgroth16.VerifyingKey[g1, g2, gt], len(keys))
+		for k := range keys {
+			ph[k] = stdgroth16.PlaceholderVerifyingKey[g1, g2, gt](s.ccs)
+			var e2 error
+			if pan, msg = common.Safely(func() { vals[k], e2 = stdgroth16.ValueOfVerifyingKey[g1, g2, gt](keys[k]) }); pan || e2 != nil {
+				res.Circuit, res.Err = "unassignable", fmt.Sprint(msg, e2)
+				return
+			}
+		}
+		circuit := &g16OuterSwitch{
+			Proof:        stdgroth16.PlaceholderProof[g1, g2](s.ccs),
+			Keys:         ph,
+			InnerWitness: stdgroth16.PlaceholderWitness[fr](s.ccs),
+			complete:     complete,
+		}
+		solve(circuit, &g16OuterSwitch{Proof: proof, Keys: vals, Idx: b.Idx, InnerWitness: wit}, res)
+	default:
+		res.Circuit, res.Err = "skip", "mode "+b.Mode
+	}
+}
+
+func plonkCircuit(b *RecBeh, s *seen, res *Res) {
+	complete := b.Arith != "incomplete"
+	var proof stdplonk.Proof[fr, g1, g2]
+	var wit stdplonk.Witness[fr]
+	var e1, e3 error
+	pan, msg := common.Safely(func() {
+		proof, e1 = stdplonk.ValueOfProof[fr, g1, g2](s.plp)
+		wit, e3 = stdplonk.ValueOfWitness[fr](s.pw)
+	})
+	if pan || e1 != nil || e3 != nil {
+		res.Circuit, res.Err = "unassignable", fmt.Sprint(msg, e1, e3)
+		return
+	}
+	switch b.Mode {
+	case "", "witness", "fixed":
+		var vk stdplonk.VerifyingKey[fr, g1, g2]
+		var e2 error
+		if pan, msg = common.Safely(func() { vk, e2 = stdplonk.ValueOfVerifyingKey[fr, g1, g2](s.plvk) }); pan || e2 != nil {
+			res.Circuit, res.Err = "unassignable", fmt.Sprint(msg, e2)
+			return
+		}
+		if b.Mode == "fixed" {
+			circuit := &plOuterFixed{
+				Proof:        stdplonk.PlaceholderProof[fr, g1, g2](s.ccs),
+				vk:           vk,
+				InnerWitness: stdplonk.PlaceholderWitness[fr](s.ccs),
+				complete:     complete,
+			}
+			solve(circuit, &plOuterFixed{Proof: proof, InnerWitness: wit}, res)
+			return
+		}
+		circuit := &plOuter{
+			Proof:        stdplonk.PlaceholderProof[fr, g1, g2](s.ccs),
+			VerifyingKey: stdplonk.PlaceholderVerifyingKey[fr, g1, g2](s.ccs),
+			InnerWitness: stdplonk.PlaceholderWitness[fr](s.ccs),
+			complete:     complete,
+		}
+		solve(circuit, &plOuter{Proof: proof, VerifyingKey: vk, InnerWitness: wit}, res)
+	case "switch":
+		keys := []plonk.VerifyingKey{s.plvk}
+		if b.NKeys == 2 {
+			alt := c377.PlonkAlt(b.Shape)
+			if alt == nil || alt == s.plvk {
+				res.Circuit = "skip"
+				return
+			}
+			keys = []plonk.VerifyingKey{alt, alt}
+			keys[b.Pos] = s.plvk
+		}
+		if b.Idx < len(keys) {
+			var verr error
+			if pan, msg = common.Safely(func() { verr = plonk.Verify(s.plp, keys[b.Idx], s.pw, c377.PlonkVerifierOpts...) }); pan {
+				res.Native, res.NativeSt = "panic", msg
+			} else {
+				res.Native = verdictOf(verr)
+			}
+		} else {
+			res.Native = "reject"
+		}
+		var base stdplonk.BaseVerifyingKey[fr, g1, g2]
+		var e2 error
+		if pan, msg = common.Safely(func() { base, e2 = stdplonk.ValueOfBaseVerifyingKey[fr, g1, g2](s.plvk) }); pan || e2 != nil {
+			res.Circuit, res.Err = "unassignable", fmt.Sprint(msg, e2)
+			return
+		}
+		ph := make([]stdplonk.CircuitVerifyingKey[fr, g1], len(keys))
+		vals := make([]stdplonk.CircuitVerifyingKey[fr, g1], len(keys))
+		for k := range keys {
+			ph[k] = stdplonk.PlaceholderCircuitVerifyingKey[fr, g1](s.ccs)
+			if pan, msg = common.Safely(func() { vals[k], e2 = stdplonk.ValueOfCircuitVerifyingKey[fr, g1](keys[k]) }); pan || e2 != nil {
+				res.Circuit, res.Err = "unassignable", fmt.Sprint(msg, e2)
+				return
+			}
+		}
+		circuit := &plOuterSwitch{
+			Proof:        stdplonk.PlaceholderProof[fr, g1, g2](s.ccs),
+			Base:         stdplonk.PlaceholderBaseVerifyingKey[fr, g1, g2](s.ccs),
+			Keys:         ph,
+			InnerWitness: stdplonk.PlaceholderWitness[fr](s.ccs),
+			complete:     complete,
+		}
+		solve(circuit, &plOuterSwitch{Proof: proof, Base: base, Keys: vals, Idx: b.Idx, InnerWitness: wit}, res)
+	case "same":
+		// the edited triple batched with a genuine one: accepted iff both are
+		gen := c377.Behaviour{ID: -1 - b.ID, Shape: b.Shape}
+		var gs *seen
+		func() {
+			// the genuine triple of the same key: replay the empty behaviour (the observer is keyed by id)
+			r := c377.PlonkRun(&gen)
+			_ = r
+		}()
+		gs = lookupSeen(gen.ID)
+		if gs == nil || gs.native != "accept" || gs.plvk != s.plvk {
+			res.Circuit = "skip"
+			return
+		}
+		var vk stdplonk.VerifyingKey[fr, g1, g2]
+		var gproof stdplonk.Proof[fr, g1, g2]
+		var gwit stdplonk.Witness[fr]
+		var e2, e4, e5 error
+		if pan, msg = common.Safely(func() {
+			vk, e2 = stdplonk.ValueOfVerifyingKey[fr, g1, g2](s.plvk)
+			gproof, e4 = stdplonk.ValueOfProof[fr, g1, g2](gs.plp)
+			gwit, e5 = stdplonk.ValueOfWitness[fr](gs.pw)
+		}); pan || e2 != nil || e4 != nil || e5 != nil {
+			res.Circuit, res.Err = "unassignable", fmt.Sprint(msg, e2, e4, e5)
+			return
+		}
+		order := func(a, b stdplonk.Proof[fr, g1, g2]) []stdplonk.Proof[fr, g1, g2] {
+			return []stdplonk.Proof[fr, g1, g2]{a, b}
+		}
+		proofs, wits := order(proof, gproof), []stdplonk.Witness[fr]{wit, gwit}
+		if b.Pos == 1 {
+			proofs, wits = order(gproof, proof), []stdplonk.Witness[fr]{gwit, wit}
+		}
+		circuit := &plOuterSame{
+			Proofs: []stdplonk.Proof[fr, g1, g2]{stdplonk.PlaceholderProof[fr, g1, g2](s.ccs), stdplonk.PlaceholderProof[fr, g1, g2](s.ccs)},
+			VerifyingKey: stdplonk.PlaceholderVerifyingKey[fr, g1, g2](s.ccs),
+			Witnesses:    []stdplonk.Witness[fr]{stdplonk.PlaceholderWitness[fr](s.ccs), stdplonk.PlaceholderWitness[fr](s.ccs)},
+			complete:     complete,
+		}
+		solve(circuit, &plOuterSame{Proofs: proofs, VerifyingKey: vk, Witnesses: wits}, res)
+	default:
+		res.Circuit, res.Err = "skip", "mode "+b.Mode
+	}
+}
+
+var lookupSeen func(id int) *seen
 
 func firstLine(s string) string {
 	for i := range s {
